@@ -63,7 +63,7 @@ SenderVector(d, ki) ==
   Vector("akamac_sender",
     [j \in 1..Len(OpsPool) |->
        Step("aka_mac", "C15", FALSE, [eap |-> IF j % 2 = 0 THEN stale ELSE d, key |-> key, ops |-> OpsPool[j], site |-> "sender-ops" \o ToString(j)],
-            [panic |-> FALSE, err |-> FALSE, mac |-> MacT(key, sent), again |-> TRUE, stable |-> TRUE])])
+            [panic |-> FALSE, err |-> FALSE, mac |-> MacT(key, sent), again |-> TRUE, stable |-> TRUE, keysens |-> TRUE])])
 
 \* receiver side: W-form packets from the independent encoder in a given attribute order, with given reserved octets;
 \* the transmitted MAC is the code over the wire octets; the receiver must obtain it -- and another one if an octet or the key differs
@@ -73,7 +73,7 @@ ReceiverVector(w, ki, cls) ==
       mac == MacT(key, b0)
       flipAt == Len(b0) - 1 IN
   Vector("akamac_receiver",
-    << Step("aka_mac", "C15", FALSE, [wire |-> b0, key |-> key, site |-> cls], [panic |-> FALSE, err |-> FALSE, mac |-> mac]),
+    << Step("aka_mac", "C15", FALSE, [wire |-> b0, key |-> key, site |-> cls], [panic |-> FALSE, err |-> FALSE, mac |-> mac, keysens |-> TRUE]),
        Step("aka_mac", "C15", FALSE, [wire |-> b0, key |-> key, ops |-> << "marshal" >>, site |-> cls \o "-marshalled"], [panic |-> FALSE, err |-> FALSE, mac |-> mac]),
        Step("aka_mac", "C15", FALSE, [wire |-> b0, key |-> key, ops |-> << "calc", "marshal", "calc" >>, site |-> cls \o "-recalc"], [panic |-> FALSE, err |-> FALSE, mac |-> mac]),
        Step("aka_mac", "C15", FALSE, [wire |-> FlipBit(b0, flipAt, 0), key |-> key, site |-> cls \o "-flipped"],
@@ -99,8 +99,8 @@ ReceiverSet ==
 \* long attributes the library has no name for
 BigRecv == LET ua(t, n) == [t |-> t, rsv |-> 0, v |-> D(n, t), pad |-> << >>] IN
            [code |-> 1, id |-> 77, m |-> "aka", sub |-> 1, rsv |-> 0,
-            attrs |-> << AkaAttrPlain(AV(AT_RAND, 16)), AkaAttrPlain(AV(AT_AUTN, 16)), AkaAttrPlain(AV(AT_MAC, 16)),
-                         ua(135, 1018), ua(136, 1018), ua(137, 1018), ua(138, 1018), ua(139, 1018) >>]
+            attrs |-> << ua(0, 2), AkaAttrPlain(AV(AT_RAND, 16)), AkaAttrPlain(AV(AT_AUTN, 16)), AkaAttrPlain(AV(AT_MAC, 16)),
+                         ua(135, 1018), ua(136, 1018), ua(137, 1018), ua(138, 1018), ua(139, 1018), ua(254, 6), ua(255, 2) >>]   \* both ends of the type space
 ReceiverSeq == SetToSeqAny(ReceiverSet) \o << << BigRecv, "recv-big" >> >>
 
 \* ---- C16
